@@ -78,6 +78,31 @@ CLAIMED = {
         note="Colon clauses are claimed for TRS_desc and S_desc_TR (the layouts whose documented rendering has a colon). "
              "Trusted: rendering tables; (trs, desc) pairs compared exactly.",
         design_ref="§6 C20"),
+    "C03": dict(
+        technique='every token sequence x configuration of the TLA+ token model replayed + seeded soup / entry points / invalid-argument table, all judged by TLC against ObsInvariants!ClauseC03 and ArgTrace!ExpectedExc',
+        text="TLC enumerates every admissible token sequence (Twp/Rge, section with/without colon, single/multi, bare section word, five kinds of text) up to the bound x 15 configurations (colon modes, segment, sec_within, every forced layout through keyword / config / parse argument); each is rendered and parsed, plus core-alphabet sequences up to 5 tokens, thousands of soup / truncated / shuffled / unicode / empty texts x random valid configurations x PLSSDesc(), PLSSDesc.parse(), Tract(), Tract.parse(); TLC evaluates 'no exception and at least one tract' on every observation and the documented exception class for 16 invalid-argument situations.",
+        note="Trusted: token rendering (harness/plsstok.py, render.py), the projection of public attributes in harness/impl.py (typing and 'whole text' facts are computed in Python and judged in TLA+). The marker walk that assigns text to tracts is not yet modelled action by action (planned PlssWalk.tla); verdicts do not depend on it.",
+        design_ref='§5.1, §5.13, §6 C03'),
+    "C04": dict(
+        technique='TLA+ token model whose text tokens are unique marker words, all sequences x configurations replayed, damaged documents with marker insertions; TLC evaluates ObsInvariants!ClauseC04 on every observation',
+        text="Every long text token of every enumerated token sequence is a unique foreign word, so 'every insertion point x every arrangement' is the model's input space; in addition rendered documents are damaged (colons removed, words deleted, stray Twp/Rge or section) and seeded with four marker words at random word boundaries under 12 configurations. TLC checks for each observation that every marker occurs in a tract description or in an unused_desc error flag.",
+        note="Trusted: token rendering (harness/plsstok.py, render.py), the projection of public attributes in harness/impl.py (typing and 'whole text' facts are computed in Python and judged in TLA+). The marker walk that assigns text to tracts is not yet modelled action by action (planned PlssWalk.tla); verdicts do not depend on it.",
+        design_ref='§5.1, §6 C04'),
+    "C09": dict(
+        technique="token sequences x configurations + soup parsed; TLC checks every tract's TRS against the TrsForm recogniser, its attributes against Decompose, and orig_desc/source/orig_index",
+        text="For every tract of every observation TLC evaluates: the TRS string is in the standard form with numbers or error placeholders (never 'undefined'), twp/rge/sec/number/direction/twprge attributes are exactly its decomposition (TrsForm, shared with C12), orig_desc is the full input text, source is the parent's, orig_index is the zero-based position.",
+        note="Trusted: token rendering (harness/plsstok.py, render.py), the projection of public attributes in harness/impl.py (typing and 'whole text' facts are computed in Python and judged in TLA+). The marker walk that assigns text to tracts is not yet modelled action by action (planned PlssWalk.tla); verdicts do not depend on it.",
+        design_ref='§5.13, §6 C09'),
+    "C10": dict(
+        technique='token sequences x configurations + soup + trigger-phrase placements in enumerated document shapes; TLC evaluates ObsInvariants!ClauseC10',
+        text='On every observation TLC checks: all flags are str and all flag lines (str, str) tuples on description and tracts, flags and line heads are equal as multisets, every description flag is on every tract, desc_is_flawed <=> an error flag exists, an undecipherable TRS implies an error flag; and for documents with one of 12 trigger phrases placed at the start / middle / end of a block: a warning of that kind is raised and its context contains the trigger word.',
+        note="Trusted: token rendering (harness/plsstok.py, render.py), the projection of public attributes in harness/impl.py (typing and 'whole text' facts are computed in Python and judged in TLA+). The marker walk that assigns text to tracts is not yet modelled action by action (planned PlssWalk.tla); verdicts do not depend on it.",
+        design_ref='§5.13, §6 C10'),
+    "C11": dict(
+        technique='TLA+ model decides per (token sequence, configuration) whether the parse must fall back (MustFallBack, BothFound); all cases replayed; forced copy_all through 3 channels on documents and soup; TLC evaluates ObsInvariants!ClauseC11',
+        text="spec/PlssDesc.tla models layout deduction and section rejection (colon rule, 'of/in' rule, cautious second pass) and from them the situations in which exactly one whole-text tract is due; TLC emits every case with that verdict, the harness parses it and TLC checks: forced or deduced copy_all / must-fall-back => exactly one tract carrying the entire preprocessed text, an error flag unless both a Twp/Rge and a section were found, and never two whole-text tracts.",
+        note="Trusted: token rendering (harness/plsstok.py, render.py), the projection of public attributes in harness/impl.py (typing and 'whole text' facts are computed in Python and judged in TLA+). The marker walk that assigns text to tracts is not yet modelled action by action (planned PlssWalk.tla); verdicts do not depend on it.",
+        design_ref='§5.1, §6 C11'),
 }
 
 NOT_APPLICABLE = {
